@@ -1052,6 +1052,8 @@ def run(ctx):
     sp = space()
     tasks = plan(ctx.tier)
     ctx.pmap("mzcheck.checks.c06", "task", tasks)
+    for hs in (("4", "7") if ctx.quick else ("1", "2", "4", "7", "123", "4242")):  # the 2x2 sweeps again in interpreters with other hash seeds (iteration order of sets of strings)
+        ctx.pmap("mzcheck.checks.c06", "task", [t for t in tasks if t.get("mazes") in ("g22", "k22", "s22q", "s22")][::3], hashseed=hs)
     fps, wps = covering_full(), covering_prompt()
     sets = {}
     for t in tasks:
